@@ -30,7 +30,24 @@ type CustomMsg struct {
 	T string
 }
 
+// ShortTagMsg is a registered message whose writer rejects some values: the tag travels as a short
+// string (1-byte length), so a tag longer than 255 bytes makes the encode fail - legitimately, and for
+// that one message only.
+type ShortTagMsg struct {
+	Tag string
+}
+
 func init() {
+	vivid.RegisterCustomMessage[*ShortTagMsg]("verifShortTagMsg",
+		func(message any, r *messages.Reader, codec messages.Codec) error {
+			m := message.(*ShortTagMsg)
+			t, err := r.ReadShortString()
+			m.Tag = t
+			return err
+		},
+		func(message any, w *messages.Writer, codec messages.Codec) error {
+			return w.WriteShortString(message.(*ShortTagMsg).Tag).Err()
+		})
 	vivid.RegisterCustomMessage[*CustomMsg]("verifCustomMsg",
 		func(message any, r *messages.Reader, codec messages.Codec) error {
 			m := message.(*CustomMsg)
@@ -225,6 +242,7 @@ func Corpus() map[string][]any {
 	}
 	c["clusterSingletonForwardedMessage"] = append(c["clusterSingletonForwardedMessage"], cluster.VerifSingletonForwarded(nil, new(vivid.OnLaunch), "1.2.3.4:5", "/p"))
 	c["verifCustomMsg"] = []any{&CustomMsg{}, &CustomMsg{N: math.MinInt32, T: Strings[3]}}
+	c["verifShortTagMsg"] = []any{&ShortTagMsg{}, &ShortTagMsg{Tag: "t"}, &ShortTagMsg{Tag: strings.Repeat("T", 255)}}
 	return c
 }
 
